@@ -1105,8 +1105,10 @@ void get_detector_coordinates_helper(
             uint64_t reps = op.repeat_block_rep_count();
             uint64_t used_reps = 0;
             while (used_reps < reps) {
-                uint64_t skip =
-                    per == 0 ? reps : std::min(reps, (*iter_desired_detector_index - next_detector_index) / per);
+                uint64_t reps_left = reps - used_reps;
+                uint64_t skip = per == 0
+                                    ? reps_left
+                                    : std::min(reps_left, (*iter_desired_detector_index - next_detector_index) / per);
                 used_reps += skip;
                 next_detector_index += per * skip;
                 vec_pad_add_mul(coord_shift, block_shift, skip);
